@@ -147,30 +147,81 @@ def site_name(export, site):
 
 
 # ------------------------------------------------------------------ accepted mutants: shapes
-JAVA_NUMERIC = {"Byte", "Short", "Int", "Integer", "Long", "Float", "Double", "Char", "Character", "Number",
-                "BigDecimal", "BigInteger"}
+# JLS 5.1.2 widening primitive conversions
+JLS_WIDEN = {"byte": {"short", "int", "long", "float", "double"}, "short": {"int", "long", "float", "double"},
+             "char": {"int", "long", "float", "double"}, "int": {"long", "float", "double"},
+             "long": {"float", "double"}, "float": {"double"}, "double": set()}
+JAVA_BASE = {"byte": "byte", "short": "short", "int": "int", "integer": "int", "long": "long", "float": "float",
+             "double": "double", "char": "char", "character": "char"}
+JAVA_NUMBER_CLASSES = {"number", "bigdecimal", "biginteger"}
 
 
-def type_kind(d, which):
-    name = d[which + "_name"]
+def java_kind(d, which):
+    """(kind, base): prim/boxed of a Java numeric or char type, `number` classes, or other"""
+    name = str(d[which + "_name"]).lower()
+    if d[which + "_builtin"] and name in JAVA_BASE:
+        return ("prim" if d[which + "_prim"] else "boxed"), JAVA_BASE[name]
+    if d[which + "_builtin"] and name in JAVA_NUMBER_CLASSES:
+        return "numclass", name
     if d[which + "_builtin"]:
-        if name in JAVA_NUMERIC:
-            return ("prim-" if d[which + "_prim"] else "boxed-") + "numeric"
-        return "builtin:" + name
-    return d.get(which + "_k", "class")
+        return "builtin", name
+    return "class", name
 
 
-def accepted_shape(lang, site, d, text_changed):
+def jls_assignable(old, new):
+    """does the JLS allow a value of type `old` where `new` is declared (assignment context, 5.2),
+    for the numeric/char built-ins: identity, widening primitive, boxing + widening reference
+    (to Number, to Object), unboxing + widening primitive"""
+    (ok, ob), (nk, nb) = old, new
+    if ok in ("prim", "boxed") and nk == "prim":
+        return ob == nb or nb in JLS_WIDEN[ob]          # (unboxing,) widening primitive
+    if ok in ("prim", "boxed") and nk == "boxed":
+        return ob == nb                                  # boxing / identity
+    if ok in ("prim", "boxed") and nk == "numclass":
+        return nb == "number" and ob != "char"           # boxing + widening reference to Number
+    if ok == "numclass" and nk == "numclass":
+        return nb == "number"
+    if ok in ("prim", "boxed", "numclass") and new == ("builtin", "object"):
+        return True                                      # boxing + widening reference to Object
+    return False
+
+
+JLS_RANGE = {"byte": (-128, 127), "short": (-32768, 32767), "char": (0, 65535)}
+
+
+def jls_constant_narrowing(export, site, old, new):
+    """JLS 5.2: a constant expression of type byte/short/char/int may be assigned to a variable of
+    type byte/short/char (or Byte/Short/Character) when its value is representable there.  Only
+    the shape the generator produces is recognised: the initialiser of the variable is an integer
+    literal."""
+    if site[1][0] != "varType" or old[0] not in ("prim", "boxed") or old[1] not in ("byte", "short", "char", "int"):
+        return False
+    if new[0] not in ("prim", "boxed") or new[1] not in JLS_RANGE:
+        return False
+    e = node_at(export, site[0]).get("expr")
+    if not e or e["n"] != "int":
+        return False
+    try:
+        v = int(e["lit"])
+    except ValueError:
+        return False
+    lo, hi = JLS_RANGE[new[1]]
+    return lo <= v <= hi
+
+
+def accepted_shape(lang, site, d, text_changed, export=None):
     """shape signature of a mutant the compiler accepts"""
     field = site[1][0]
     if not text_changed:
         return "%s:overwrite:%s:translation-unchanged:compiler-accepts" % (lang, field)
-    ok, nk = type_kind(d, "old"), type_kind(d, "new")
     if field in ("newArg", "callArg"):
-        return "%s:overwrite:%s:type-argument-unconstrained:compiler-accepts" % (lang, field)
-    if ok.endswith("numeric") and nk.endswith("numeric"):
-        return "%s:overwrite:%s:numeric-widening-or-boxing:%s->%s:compiler-accepts" % (lang, field, ok, nk)
-    return "%s:overwrite:%s:%s->%s:compiler-accepts" % (lang, field, ok, nk)
+        return "%s:overwrite:%s:type-argument:compiler-accepts" % (lang, field)
+    old, new = java_kind(d, "old"), java_kind(d, "new")
+    if lang == "java" and jls_assignable(old, new):
+        return "java:overwrite:jls-assignment-conversion:compiler-accepts"
+    if lang == "java" and export is not None and jls_constant_narrowing(export, site, old, new):
+        return "java:overwrite:jls-constant-narrowing:compiler-accepts"
+    return "%s:overwrite:%s:%s:%s->%s:%s:compiler-accepts" % (lang, field, old[0], old[1], new[0], new[1])
 
 
 # ------------------------------------------------------------------ pipeline
@@ -307,11 +358,18 @@ def judge(run, r, w, jres, have_checker):
         run.broken.append({"obligation": "correspondence mut.unrelated", "detail": obj})
         run.violation(obj, signature="C04:model-disagrees:unrelated", no_input=True)
     if any(x is not False for x in rel_impl) or not a_rel["unrelated"] or not m["rel"]["unrelated"]:
-        kinds = "%s/%s" % (rec.get("old_cls"), rec.get("new_cls"))
+        # shape: which of the four relations hold (s = subtype, a = assignable only)
+        if rel_impl[0] is True or rel_impl[1] is True:
+            shape = "subtype"
+        elif all(isinstance(x, bool) for x in rel_impl):
+            shape = "assignable-but-not-subtype"
+        else:
+            shape = "relation-test-raises"
+        run.tally("related", "%s:%s:%s->%s" % (shape, site[1][0], rec["old_str"], rec["new_str"]))
         run.violation(dict(where, what="the new type is related to the replaced one", old=rec["old_str"],
                            new=rec["new_str"], relations_impl=rel_impl, relations_model=rel_model,
-                           order="[old<:new, new<:old, old assignable-from new, new assignable-from old]"),
-                      signature="C04:%s:related:%s:%s" % (lang, site[1][0], kinds))
+                           order="[old<:new, new<:old, old assignable-to new, new assignable-to old]"),
+                      signature="C04:%s:related:%s" % (lang, shape))
     # (c) message
     a_msg = w["answers"][1]["r"]
     msg = ow.get("error_injected")
@@ -347,8 +405,9 @@ def judge(run, r, w, jres, have_checker):
                                        "" if text_changed else "(same text)"))
         run.count({"javac": [rc_e == 0, rc_o == 0], "spec": spec_key(spec)})
         if rc_e == 0 and rc_o == 0:
-            sig = accepted_shape(lang, site, m, text_changed)
+            sig = accepted_shape(lang, site, m, text_changed, er["export"])
             run.tally("accepted_shapes", sig)
+            run.tally("accepted_detail", "%s:%s->%s" % (site[1][0], rec["old_str"], rec["new_str"]))
             run.violation(dict(where, what="mutant accepted by javac", site=site, old=rec["old_str"], new=rec["new_str"],
                                message=msg), signature="C04:" + sig)
 
